@@ -182,7 +182,7 @@ def run_file(case, ctx):
     lines = [strip_term(r.save()) for r in recs]
     if any(not single_line(l) for l in lines):
         return  # reported by the roundtrip part
-    raw = "".join(l + "\n" for l in lines).encode("utf-8")
+    raw = "".join(l + "\n" for l in lines).encode("utf-8", "surrogatepass")
     if lines and not case.get("final_nl", True):
         raw = raw[:-1]      # a record file written by another tool: the last line has no terminator
         ctx.label("unterminated-last-record")
@@ -319,7 +319,11 @@ def run_case(case, ctx):
 
 def strategies(tier):
     big = tier == "thorough"
-    anytext = st.text(alphabet=st.one_of(st.sampled_from(list("\n\r\"\\ ,\tab{}[]:\u2028é𝄞\x00\x85\ud83d\udcff")), st.characters(blacklist_categories=("Cs",))), max_size=6)
+    anytext = st.text(alphabet=st.one_of(st.sampled_from(list("\n\r\"\\ ,\tab{}[]:\u2028é𝄞\x00\x85")), st.characters(blacklist_categories=("Cs",))), max_size=6)
+    # st.text() never produces lone surrogates (they are not encodable); JSON strings may hold them (os.fsdecode() makes them
+    # from undecodable bytes), so they are joined by hand. Low surrogates only: a high one directly followed by a low one IS
+    # JSON's spelling of an astral character and comes back as that character - JSON's doing, not the library's
+    anytext = st.one_of(anytext, anytext, st.lists(st.sampled_from(["a", "\udcff", "\udc80", "é", " ", "\u2028", "\x85", "b"]), max_size=4).map("".join))
     jsonv = st.recursive(st.none() | st.booleans() | st.integers(-10 ** 40, 10 ** 40) | st.floats(allow_nan=False, allow_infinity=False) | anytext,
                          lambda ch: st.lists(ch, max_size=3) | st.dictionaries(anytext, ch, max_size=3), max_leaves=6)
     ftext = st.text(alphabet=st.one_of(st.sampled_from(list(",\t\"' \\;ab\x00\u2028é𝄞|")),
